@@ -101,12 +101,12 @@ def get_field_unit(U):
         fcls = it.module_attr(it.load_module("pde.fields.base"), "FieldBase")
         made = []
 
-        def copy():
+        def copy(dtype=None):
             f = Instance(fcls, {"_data_valid": sym_array(fresh_name("copy_buffer"), (N,)), "grid": grid})
             made.append(f)
             return f
 
-        st.attrs["_field"] = Instance(None, {"copy": copy}, name="template")
+        st.attrs["_field"] = Instance(None, {"copy": copy, "dtype": Opaque("float")}, name="template")
         idx = z3.Int("index")
         ci = None
         for cand in (0, 1, -1, -2):
@@ -148,7 +148,7 @@ def get_field_content_unit(U):
         it.ctx.assume(N >= 1)
         st, frames, times, grid = _storage(it, 2)
         fcls = it.module_attr(it.load_module("pde.fields.base"), "FieldBase")
-        st.attrs["_field"] = Instance(None, {"copy": lambda: Instance(fcls, {"_data_valid": sym_array(fresh_name("copy_buffer"), (N,)), "grid": grid})}, name="template")
+        st.attrs["_field"] = Instance(None, {"copy": lambda dtype=None: Instance(fcls, {"_data_valid": sym_array(fresh_name("copy_buffer"), (N,)), "grid": grid}), "dtype": Opaque("float")}, name="template")
         out = []
         for i in (0, 1, -1):
             out.append(it.call(it.getattr(st, "__getitem__"), [i], {}))
@@ -240,4 +240,4 @@ def bounded(tier, seed):
 
 TRUSTED = ["heap model: np.array(x) is a fresh buffer, `field._data_valid[...] = x` copies values into the field's own buffer", "Python list operations are length generic"]
 ASSUMPTIONS = ["stores of up to two pre-existing frames in the symbolic runs; frame contents, sizes and time stamps arbitrary", "extract_time_range may share buffers with the source (documented)"]
-NOT_COVERED = ["items() (generator), extract_field / view_field / apply / copy: bounded native check only", "dtype casting on append (values are mathematical reals in the model): bounded native check only"]
+NOT_COVERED = ["items() (generator), extract_field / view_field / apply / copy: bounded native check only", "dtype casting on append and on reading back (values are mathematical reals in the model; the data type of a frame read back is promoted by _get_field): bounded native check with mixed-dtype sessions only"]
